@@ -1628,6 +1628,12 @@ skip_cpp_comment(int c) {
     }
 
     while (c != EOF && c != '\n') {
+      if (c == '\\' && peek() == '\n') {
+        // A backslash-newline splices the next line onto the comment.
+        comment->_comment += c;
+        c = get();
+        ++line_number;
+      }
       comment->_comment += c;
       c = get();
     }
@@ -1639,6 +1645,10 @@ skip_cpp_comment(int c) {
 
   } else {
     while (c != EOF && c != '\n') {
+      if (c == '\\' && peek() == '\n') {
+        // A backslash-newline splices the next line onto the comment.
+        get();
+      }
       c = get();
     }
   }
